@@ -26,7 +26,7 @@ CONFIG = dict(
     min_nontrivial={"quick": 1500, "thorough": 20000},
     nshards={"quick": 8, "thorough": 16},
     timeout={"quick": 600, "thorough": 3600},
-    required_counters=("deliveries_checked", "report_files_checked", "safety_checks", "loader_reports_compared"),
+    required_counters=("deliveries_checked", "failed_checks_before_later_ones", "report_files_checked", "safety_checks", "loader_reports_compared"),
 )
 
 MODULES = {
@@ -92,6 +92,16 @@ def check(ctx, f, analysis, loader, UnsafeFileError, label, data):
         return
     except Exception as e:
         agg.hist("refusals", type(e).__name__)
+        # the check is asked anyway (a scanner does not decompile first): it may fail, but a failed check must not
+        # disturb the ones that follow in this process
+        try:
+            analysis.check_safety(f.Pickled.load(data))
+        except BaseException:
+            agg.count("failed_checks_before_later_ones")
+        try:
+            loader.load(io.BytesIO(data))
+        except BaseException:
+            pass
         return
     ch = h(data)
     if not agg.case(ch, p.has_import, {"label": label, "decompile": src[:200]}):
